@@ -9,6 +9,7 @@ CONSTANTS
     TickSteps = {1}
     NProofs = 2
     TsChoices = {0, 1, 2, 3, 4}
+    FarChoices = {"near"}
     NonceIds = {1, 2}
     ShareNonces = TRUE
     KidChoices = {"k1"}
